@@ -46,11 +46,17 @@ OIN = [12]                  # object_insert_jsonb
 STP = [15]                  # the strip_nulls family
 BAR = [16]                  # build_array
 BOB = [17]                  # build_object
+DKP = [24]                  # the delete_by_keypath family (needs 18-23)
 
 ARR_SEP = ("            for i in 0..length {\n                if i > 0 {\n                    if pretty_opts.enabled {\n"
            "                        json.push_str(\",\\n\");\n                    } else {\n                        json.push(',');\n")
 SCA_TAIL = "    *jentry_offset += 4;\n    *value_offset += length;\n    Ok(())\n}\n"
 SN_PUSH_OBJ = "                        builder.push_object(strip_nulls_object(item_header, item)?);"
+DK_OTHER = ("                if i != idx {\n                    builder.push_raw(entry.0, entry.1);\n"
+            "                } else if !keypath.is_empty() {")
+DK_OKEY = ("                if !key.eq(name) {\n                    builder.push_raw(key, jentry, item);\n"
+           "                } else if !keypath.is_empty() {")
+DK_SCALAR_HIT = "                        _ => return Ok(None),\n                    }\n                }\n            }\n            Ok(Some(builder))"
 OI_LOOP = ("    for _ in 0..idx {\n        if let Some((key, jentry, item)) = obj_iter.next() {\n"
            "            builder.push_raw(key, jentry, item);\n        }\n    }\n")
 
@@ -110,6 +116,22 @@ MUTATIONS = [
     ("bo-key-bytes-not-written", F, "        key_data.extend_from_slice(key.as_bytes());\n", "", 0, BOB, "bo_loop1_step"),
     ("bo-values-before-keys", F, "    buf.extend_from_slice(&key_data);\n    buf.extend_from_slice(&val_data);", "    buf.extend_from_slice(&val_data);\n    buf.extend_from_slice(&key_data);", 0, BOB, "build_object_agrees"),
     ("bo-array-header", F, "    let header = OBJECT_CONTAINER_TAG | len;", "    let header = ARRAY_CONTAINER_TAG | len;", 0, BOB, "build_object_agrees"),
+    # the delete_by_keypath family
+    ("dk-index-from-end-sign", F, "            let idx = if *idx < 0 { len + *idx } else { *idx };", "            let idx = if *idx < 0 { len - *idx } else { *idx };", 0, DKP, "del_arr_step"),
+    ("dk-index-len-in-range", F, "            if idx < 0 || idx >= len {\n                return Ok(None);", "            if idx < 0 || idx > len {\n                return Ok(None);", 0, DKP, "del_arr_step"),
+    ("dk-array-index-test-inverted", F, DK_OTHER, DK_OTHER.replace("if i != idx {", "if i == idx {"), 0, DKP, "dka_loop1_other"),
+    ("dk-array-empty-path-descends", F, DK_OTHER, DK_OTHER.replace("} else if !keypath.is_empty() {", "} else if keypath.is_empty() {"), 0, DKP, "dka_loop1_drop"),
+    ("dk-array-scalar-hit-error", F, DK_SCALAR_HIT, DK_SCALAR_HIT.replace("return Ok(None)", "return Err(Error::InvalidJsonType)"), 0, DKP, "dka_loop1_hit"),
+    ("dk-array-nested-header-at-4", F, "                            let item_header = read_u32(item_value, 0)?;", "                            let item_header = read_u32(item_value, 4)?;", 0, DKP, "dka_loop1_hit"),
+    ("dk-array-name-is-error", F, "        _ => Ok(None),\n    }\n}\n\nfn delete_jsonb_object_by_keypath", "        _ => Err(Error::InvalidJsonType),\n    }\n}\n\nfn delete_jsonb_object_by_keypath", 0, DKP, "del_arr_step"),
+    # (checked without I24: the kernel evaluation of its witness on this mutated loop takes minutes)
+    ("dk-object-key-test-inverted", F, DK_OKEY, DK_OKEY.replace("if !key.eq(name) {", "if key.eq(name) {"), 0, [23], "dko_loop1_other"),
+    ("dk-object-empty-path-descends", F, DK_OKEY, DK_OKEY.replace("} else if !keypath.is_empty() {", "} else if keypath.is_empty() {"), 0, DKP, "dko_loop1_drop"),
+    ("dk-object-scalar-hit-error", F, DK_SCALAR_HIT, DK_SCALAR_HIT.replace("return Ok(None)", "return Err(Error::InvalidJsonType)"), 1, DKP, "dko_loop1_hit"),
+    ("dk-object-nested-header-at-4", F, "                            let item_header = read_u32(item, 0)?;", "                            let item_header = read_u32(item, 4)?;", 0, DKP, "dko_loop1_hit"),
+    ("dk-object-index-is-error", F, "        _ => Ok(None),\n    }\n}\n\n/// Deletes a key (and its value)", "        _ => Err(Error::InvalidJsonType),\n    }\n}\n\n/// Deletes a key (and its value)", 0, DKP, "del_obj_step"),
+    ("dk-top-nothing-deleted-drops-header", F, "                None => {\n                    buf.extend_from_slice(value);\n                }\n            };", "                None => {\n                    buf.extend_from_slice(&value[4..]);\n                }\n            };", 0, DKP, "delete_by_keypath_jsonb_agrees"),
+    ("dk-top-scalar-error", F, "        _ => return Err(Error::InvalidJsonType),\n    }\n    Ok(())\n}\n\nfn delete_jsonb_array_by_keypath", "        _ => return Err(Error::InvalidJsonb),\n    }\n    Ok(())\n}\n\nfn delete_jsonb_array_by_keypath", 0, DKP, "delete_by_keypath_jsonb_agrees"),
 ]
 
 # harmless re-spellings: different generated text, same logic -> the proofs must still go through
@@ -124,6 +146,8 @@ RESPELLINGS = [
     ("ba-count-explicit-sum", F, "        len += 1;\n        buf.extend_from_slice(&encoded_jentry);", "        len = len + 1;\n        buf.extend_from_slice(&encoded_jentry);", 0, BAR),
     ("ba-header-commuted", F, "    let header = ARRAY_CONTAINER_TAG | len;", "    let header = len | ARRAY_CONTAINER_TAG;", 0, BAR),
     ("bo-count-explicit-sum", F, "        val_jentries.push_back(encoded_val_jentry);\n        len += 1;", "        val_jentries.push_back(encoded_val_jentry);\n        len = len + 1;", 0, BOB),
+    ("dk-range-test-flipped", F, "            if idx < 0 || idx >= len {\n                return Ok(None);", "            if idx >= len || idx < 0 {\n                return Ok(None);", 0, DKP),
+    ("dk-index-test-flipped", F, DK_OTHER, DK_OTHER.replace("if i != idx {", "if idx != i {"), 0, DKP),
 ]
 
 # changes that leave the subset / remove a target: the tool must say so and keep the committed block
@@ -138,6 +162,8 @@ RETENTION = [
      "src/functions.rs::scalar_to_serde_json", "unsupported"),
     ("out-of-subset-rev", F, "    for value in items.into_iter() {\n        let header = read_u32(value, 0)?;\n        let encoded_jentry", "    for value in items.into_iter().rev() {\n        let header = read_u32(value, 0)?;\n        let encoded_jentry", 0,
      "src/functions.rs::build_array", "unsupported"),
+    ("out-of-subset-pop-back", F, "    match keypath.pop_front() {\n        Some(KeyPath::Index(idx)) => {", "    match keypath.pop_back() {\n        Some(KeyPath::Index(idx)) => {", 0,
+     "src/functions.rs::delete_jsonb_array_by_keypath", "unsupported"),
 ]
 
 
